@@ -270,11 +270,12 @@ def decFn : Sexp → Option (Str × FnModel)
         | .atom "id" => some (fun _ v => v)
         | .atom "count" => some (fun i _ => .int i)
         | .atom "wrap" => some (fun i v => .vec [v, .int i])
+        | .atom "fail" => some (fun _ v => v)
         | .list [.atom "const", v] => (decValue v).map (fun c => fun _ _ => c)
         | _ => none)
       pure (name, { cacheable := c == 1,
                     behave := fun i v =>
-                      if idxs.contains i || fargs.contains v then .error ("fail".toList ++ (toString i).toList)
+                      if idxs.contains i || fargs.contains v || (match kind with | .atom "fail" => true | _ => false) then .error ("fail".toList ++ (toString i).toList)
                       else .ok (base i v) })
   | _ => none
 
@@ -290,7 +291,7 @@ def decEnv (facts : Value) (o : Oracle) : Sexp → Option Env
 
 def encEvents (evs : List Event) : String :=
   "(events" ++ String.join (evs.filterMap (fun
-    | .invoke f a i => some (" (inv " ++ hex f ++ " " ++ encValue a ++ " " ++ toString i ++ ")")
+    | .invoke f a i _ _ => some (" (inv " ++ hex f ++ " " ++ encValue a ++ " " ++ toString i ++ ")")
     | .reach _ _ _ => none)) ++ ")"
 
 end Reval.Codec
